@@ -542,7 +542,8 @@ structure Deck where
 
 def Deck.new (id : Nat) : Deck := { id := id, query := none, read := none, write := none, readBase := 0 }
 
-/-- what the manager's callbacks did.  `silent`: a failure for which no failure callback had been supplied (ghost) -/
+/-- what the manager's callbacks did.  `silent k rid`: a failure of request `rid` for which no failure callback had been
+supplied: nothing is called (ghost) -/
 inductive DOut
   | queryDone (rid : Nat)
   | queryFailed (rid : Nat)
@@ -550,7 +551,7 @@ inductive DOut
   | readFailed (rid : Nat) (addr : Int)
   | writeDone (rid : Nat) (addr : Int)
   | writeFailed (rid : Nat) (addr : Int)
-  | silent (rid : Nat)
+  | silent (kind rid : Nat)      -- kind: 0 query, 1 read, 2 write
   deriving DecidableEq, Repr
 
 /-- `DeckMemoryManager.query_decks(query_complete_cb, query_failed_cb)` -/
@@ -610,7 +611,7 @@ def deckNewData (d : Deck) (addr : Nat) (data : List UInt8) : Deck × List DOut 
     | some .other =>
       -- except RuntimeError: tmp_cb = self._query_failed_cb; self._clear_query_cb(); if tmp_cb: tmp_cb(str(e))
       match d.query with
-      | some q => ({ d with query := none }, [if q.hasFail then .queryFailed q.rid else .silent q.rid], none)
+      | some q => ({ d with query := none }, [if q.hasFail then .queryFailed q.rid else .silent 0 q.rid], none)
       | none => (d, [], none)
     | some e => (d, [], some e)
   else
@@ -626,14 +627,14 @@ def deckNewDataFailed (dv : DeckVariant) (d : Deck) (addr : Nat) : Deck × List 
     match d.query with
     | some q =>
       ({ d with query := none },
-        if q.hasFail then (if dv.queryFailNotifies then [.queryFailed q.rid] else []) else [.silent q.rid], none)
+        if q.hasFail then (if dv.queryFailNotifies then [.queryFailed q.rid] else []) else [.silent 0 q.rid], none)
     | none => (d, [], none)
   else
     -- tmp_cb = self._read_failed_cb; self._clear_read_cb(); if tmp_cb is not None: tmp_cb(addr - base)
     match d.read with
     | some q =>
       if q.hasFail then ({ d with read := none }, [.readFailed q.rid ((addr : Int) - d.readBase)], none)
-      else if dv.readFailClearsAlways then ({ d with read := none }, [.silent q.rid], none)
+      else if dv.readFailClearsAlways then ({ d with read := none }, [.silent 1 q.rid], none)
       else (d, [], none)
     | none => (d, [], none)
 
@@ -650,27 +651,28 @@ def deckWriteFailed (dv : DeckVariant) (d : Deck) (addr : Nat) : Deck × List DO
   match d.write with
   | some q =>
     if q.hasFail then ({ d with write := none }, [.writeFailed q.rid ((addr : Int) - d.readBase)], none)
-    else if dv.writeFailGuard then ({ d with write := none }, [.silent q.rid], none)
+    else if dv.writeFailGuard then ({ d with write := none }, [.silent 2 q.rid], none)
     else ({ d with write := none }, [], some .typeError)
   | none => if dv.writeFailGuard then (d, [], none) else (d, [], some .typeError)
+
+/-- the manager's subscriber for one output of `Memory` (only notifications with `mem.id == self.id` matter) -/
+def deckOnOut (dv : DeckVariant) (d : Deck) : Out → Deck × List DOut × Option PyErr
+  | .readOk _ i a data => if i = d.id then deckNewData d a data else (d, [], none)
+  | .readFail _ i a _ => if i = d.id then deckNewDataFailed dv d a else (d, [], none)
+  | .writeOk _ i a => if i = d.id then deckWriteDone d a else (d, [], none)
+  | .writeFail _ i a => if i = d.id then deckWriteFailed dv d a else (d, [], none)
+  | _ => (d, [], none)
 
 /-- the manager's subscribers react to the notifications of one `Memory` event, in order; the first exception
 ends the delivery: `(deck, what its callbacks did, notifications actually delivered, exception)` -/
 def deckReact (dv : DeckVariant) (d : Deck) : List Out → Deck × List DOut × List Out × Option PyErr
   | [] => (d, [], [], none)
   | o :: os =>
-    let r : Deck × List DOut × Option PyErr :=
-      match o with
-      | .readOk _ i a data => if i = d.id then deckNewData d a data else (d, [], none)
-      | .readFail _ i a _ => if i = d.id then deckNewDataFailed dv d a else (d, [], none)
-      | .writeOk _ i a => if i = d.id then deckWriteDone d a else (d, [], none)
-      | .writeFail _ i a => if i = d.id then deckWriteFailed dv d a else (d, [], none)
-      | _ => (d, [], none)
-    match r.2.2 with
-    | some e => (r.1, r.2.1, [o], some e)
-    | none =>
-      let r2 := deckReact dv r.1 os
-      (r2.1, r.2.1 ++ r2.2.1, o :: r2.2.2.1, r2.2.2.2)
+    match deckOnOut dv d o with
+    | (d1, o1, some e) => (d1, o1, [o], some e)
+    | (d1, o1, none) =>
+      let r2 := deckReact dv d1 os
+      (r2.1, o1 ++ r2.2.1, o :: r2.2.2.1, r2.2.2.2)
 
 /-- one `Memory` event with the manager subscribed: state, what was observably delivered, what the manager's
 callbacks did; an exception of a subscriber becomes the exception of the event -/
